@@ -33,7 +33,7 @@ def gen_cases(tier, seed):
                       "nested": bool(k % 3 == 0), "stale_grads": bool(k % 4 == 3),
                       "refit": bool(k % 5 == 0), "raising_callback": bool(k % 4 == 1), "binary_logits": bool(k % 6 == 1),
                       "soft_targets": bool(k % 2 == 0), "bn_tracking_off": bool(k % 7 == 2), "test_under_no_grad": bool(k % 2 == 1),
-                      "no_accuracy": bool(k % 11 == 7), "zero_loss_batches": bool(k % 12 == 2), "custom_layer": bool(k % 5 == 3),
+                      "no_accuracy": bool(k % 11 == 7), "zero_loss_batches": bool(k % 12 in (5, 11)), "custom_layer": bool(k % 5 == 3),   # (zero-loss batches: categorical mode, no extra loss term)
                       "seed": int(rng.integers(2 ** 31))})
     return cases
 
@@ -70,7 +70,7 @@ def run_case(ns, ctx, c):
                 g_ = sg.relu(self.gain) + sg.leaky_relu(self.gain, 0.1) * 0.1 + sg.selu(self.gain) * 0.05
                 return (x * g_ + sg.tanh(self.shift) + sg.sigmoid(self.shift) * 0.1) @ sg.softmax(self.mix, 1) + (self.gain * self.gain).sum() * 0.0
         layers.insert(3, Gate(6))
-    zero_loss = bool(c.get("zero_loss_batches")) and mode == "categorical"
+    zero_loss = bool(c.get("zero_loss_batches")) and mode == "categorical" and not c.get("extra_param")
     if zero_loss:
         # a saturated (dead) output unit: the model answers exactly 0, so batches whose targets are all zero have a loss of exactly 0.0 -
         # they are batches like any other (one clearing of the gradients, one backward, one optimizer step each)
